@@ -297,6 +297,8 @@ pub fn model_with_companion(spec: &FileSpec) -> io::Result<(Model, Option<(Kind,
                 let mut params = gsam::gen_params(&mut rng, spec.size_class.max(1));
                 params.sorted = true;
                 params.n_refs = params.n_refs.max(1);
+                // now and then an indexed BAM without a single placed record
+                params.all_unmapped = rng.chance(1, 8);
                 let model = gsam::generate(&params);
                 let parsed = align::parse_model(&model)?;
                 let mut bam = Vec::new();
@@ -443,7 +445,13 @@ pub fn write_to<W: Write>(kind: Kind, model: &Model, w: W) -> io::Result<()> {
     }
     match (kind, model) {
         (Kind::Bgzf, Model::Bytes { payload, cuts }) => {
-            let mut w = noodles_bgzf::io::Writer::new(w);
+            // compression level from the model: default, 0 (stored blocks: the payload appears
+            // verbatim in the file), 1, 9
+            let level = [None, Some(0u8), Some(1), Some(9), None, Some(0)][(payload.len() + cuts.len()) % 6];
+            let mut w = match level.and_then(noodles_bgzf::io::writer::CompressionLevel::new) {
+                Some(l) => noodles_bgzf::io::writer::Builder::default().set_compression_level(l).build_from_writer(w),
+                None => noodles_bgzf::io::Writer::new(w),
+            };
             let mut prev = 0;
             for &c in cuts {
                 w.write_all(&payload[prev..c])?;
